@@ -411,6 +411,11 @@ func PrintAssembly(w io.Writer, rpt *Report, obj plugin.ObjTool, maxFuncs int) e
 	// Sort for printing.
 	var syms []*objSymbol
 	for s := range symNodes {
+		// An address in front of the first symbol of a binary is reported
+		// as a symbol without any name: there is no routine to print for it.
+		if len(s.sym.Name) == 0 {
+			continue
+		}
 		syms = append(syms, s)
 	}
 	byName := func(a, b *objSymbol) bool {
